@@ -97,8 +97,16 @@ def root_qname(fn):
     return f.qname
 
 
+_CLOSURE_SUFFIX = re.compile(r"(::\{closure#\d+\})+$")
+
+
+def origin_root(qname):
+    """user-level function of a body name: strips trailing ::{closure#N} components"""
+    return _CLOSURE_SUFFIX.sub("", qname)
+
+
 class Site:
-    __slots__ = ("fn", "bb", "kind", "callee", "opterm", "ln", "key", "detail", "terms")
+    __slots__ = ("fn", "bb", "kind", "callee", "opterm", "ln", "key", "detail", "terms", "ident")
 
     def __init__(self, fn, bb, kind, callee, opterm, ln, detail, terms=(), keypart=""):
         self.fn = fn
@@ -112,7 +120,14 @@ class Site:
         # Keys carry no operand term: (crate, root function, kind, callee/operator[, receiver type or panic
         # flavour]) with multiplicity. Operand-bearing keys made every behaviour-preserving rewrite of an
         # expression (iterator chain <-> loop, helper extraction, renamed temporaries) look like a new site.
-        self.key = "%s | %s | %s | %s | %s" % (fn.crate, root_qname(fn), kind, callee, keypart)
+        # The function in the key is the one the instruction was WRITTEN in (origin), not the body it was
+        # virtually inlined into: whether a helper is inlined depends on its number of call sites, which an
+        # unrelated edit can change. `ident` identifies the instruction itself; copies of one instruction
+        # inlined into several callers are one site.
+        t = fn.blocks[bb]["t"]
+        oq = t.get("of", fn.qname)
+        self.key = "%s | %s | %s | %s | %s" % (fn.crate, origin_root(oq), kind, callee, keypart)
+        self.ident = (oq, t.get("ob", bb))
 
     def node(self):
         return self.fn.blocks[self.bb]["t"]
